@@ -69,9 +69,68 @@ def find_def(relpath: str, qual: str):
                     found = child
                     break
         if found is None:
+            renamed = _follow_rename(relpath, qual, tree)
+            if renamed is not None:
+                return src, renamed
             raise ExtractError(f"{relpath}::{qual} not found (missing {part!r})")
         node = found
     return src, node
+
+
+# --------------------------------------------------------------------------- renamed functions and constants
+#
+# Sidecar contracts are keyed by name.  A function or SQL constant that is merely renamed is still the code the contract
+# was written for: specs/function_shapes.json (written by tools/mkshapes.py from the tree the contracts were written
+# against) records, per name under contract, a hash of the definition that does not depend on its name; when a name is
+# not found, a definition in the same module (and class) with the recorded shape is taken instead.
+
+RENAMED: dict = {}  # "relpath::old qual" -> new qual (for the report)
+_SHAPES = None
+
+
+def shapes():
+    global _SHAPES
+    if _SHAPES is None:
+        import json
+
+        p = os.path.join(os.path.dirname(os.path.dirname(os.path.abspath(__file__))), "specs", "function_shapes.json")
+        try:
+            with open(p) as fh:
+                _SHAPES = json.load(fh)
+        except (OSError, ValueError):
+            _SHAPES = {}
+    return _SHAPES
+
+
+def shape_of(node) -> str:
+    """Hash of a definition without its own name (and without its docstring and decorators)."""
+    import copy
+
+    n = copy.deepcopy(node)
+    n.name = "_"
+    n.decorator_list = []
+    if n.body and isinstance(n.body[0], ast.Expr) and isinstance(getattr(n.body[0], "value", None), ast.Constant) \
+            and isinstance(n.body[0].value.value, str):
+        n.body = n.body[1:] or [ast.Pass()]
+    return hashlib.sha256(ast.dump(n, include_attributes=False).encode()).hexdigest()[:16]
+
+
+def _follow_rename(relpath, qual, tree):
+    want = shapes().get("functions", {}).get(f"{relpath}::{qual}")
+    if want is None:
+        return None
+    parts = qual.split(".")
+    scope = tree
+    for part in parts[:-1]:
+        nxt = [c for c in (scope.body if hasattr(scope, "body") else []) if isinstance(c, ast.ClassDef) and c.name == part]
+        if not nxt:
+            return None
+        scope = nxt[0]
+    cands = [c for c in scope.body if isinstance(c, (ast.FunctionDef, ast.AsyncFunctionDef)) and shape_of(c) == want]
+    if len(cands) != 1:
+        return None
+    RENAMED[f"{relpath}::{qual}"] = ".".join(parts[:-1] + [cands[0].name])
+    return cands[0]
 
 
 def source_hash(relpath: str, qual: str) -> str:
@@ -99,7 +158,19 @@ def module_constant(relpath: str, name: str):
     try:
         return getattr(mod, name)
     except AttributeError:
-        raise ExtractError(f"{relpath}::{name} not found") from None
+        pass
+    # a renamed SQL constant: the module-level string whose normalised text is the recorded one
+    want = shapes().get("constants", {}).get(f"{relpath}::{name}")
+    if want is not None:
+        cands = [k for k, v in vars(mod).items() if isinstance(v, str) and k.isupper() and const_shape(v) == want]
+        if len(cands) == 1:
+            RENAMED[f"{relpath}::{name}"] = cands[0]
+            return getattr(mod, cands[0])
+    raise ExtractError(f"{relpath}::{name} not found")
+
+
+def const_shape(text: str) -> str:
+    return hashlib.sha256(" ".join(text.split()).encode()).hexdigest()[:16]
 
 
 # --------------------------------------------------------------------------- transformation
